@@ -438,7 +438,34 @@ func deepNestingDocs() [][]byte {
 			}
 			out = append(out, []byte("JSIGHT 0.3\nTYPE @deep\n  "+body+"\nGET /a\n  200 any\n"))
 			out = append(out, []byte("JSIGHT 0.3\nGET /a\n  200\n    "+body+"\n"))
+			// the deep value is not the last child of its parent: first of two properties, first of two items, in the middle
+			// of three, and one level down
+			if n >= 999 {
+				for _, wrap := range [][2]string{{"{\"deep\": ", ", \"z\": 1}"}, {"[", ", 1]"}, {"{\"a\": 0, \"deep\": ", ", \"z\": [1]}"}, {"{\"w\": {\"deep\": ", ", \"y\": 2}, \"z\": 1}"}, {"[[", ", 2], 3]"}} {
+					out = append(out, []byte("JSIGHT 0.3\nGET /a\n  200\n    "+wrap[0]+body+wrap[1]+"\n"))
+				}
+				out = append(out, []byte("JSIGHT 0.3\nTYPE @deep\n  {\"deep\": "+body+", \"z\": 1}\nGET /a\n  200 @deep\n"))
+			}
 		}
+	}
+	// chains of types that inherit from each other through allOf at the bottom of a deep object: every type below the limit of
+	// 1000 levels, the assembled content (types x levels) around and beyond it - D77
+	for _, dn := range [][2]int{{900, 6}, {900, 2}, {300, 3}, {300, 4}, {499, 2}, {501, 2}, {100, 12}} {
+		d, n := dn[0], dn[1]
+		var sb strings.Builder
+		sb.WriteString("JSIGHT 0.3\n")
+		for i := 0; i < n; i++ {
+			sb.WriteString(fmt.Sprintf("TYPE @t%d\n", i))
+			sb.WriteString(strings.Repeat("{\"k\":", d) + "\n")
+			if i+1 < n {
+				sb.WriteString(fmt.Sprintf("{ // {allOf: \"@t%d\"}\n \"leaf%d\": 1 }\n", i+1, i))
+			} else {
+				sb.WriteString("{\"leaf\":1}")
+			}
+			sb.WriteString(strings.Repeat("}", d) + "\n")
+		}
+		out = append(out, []byte(sb.String()+"GET /d\n  200 @t0\n"))
+		out = append(out, []byte(sb.String()+"GET /d\n  200\n    {\"in\": { // {allOf: \"@t0\"}\n      \"own\": 1\n    }, \"z\": 2}\n"))
 	}
 	return out
 }
